@@ -50,6 +50,9 @@ type CircuitBreaker struct {
 	lastFailureTime time.Time
 	lastSuccessTime time.Time
 	nextAttempt     time.Time
+	// generation is incremented on every state change; a request reports its
+	// result only to the period (generation) that admitted it
+	generation uint64
 }
 
 var (
@@ -105,7 +108,7 @@ func NewCircuitBreaker(settings Settings) *CircuitBreaker {
 
 // Execute executes the given function with circuit breaker protection
 func (cb *CircuitBreaker) Execute(fn func() error) error {
-	err := cb.beforeRequest()
+	generation, err := cb.beforeRequest()
 	if err != nil {
 		return err
 	}
@@ -114,13 +117,13 @@ func (cb *CircuitBreaker) Execute(fn func() error) error {
 
 	defer func() {
 		if r := recover(); r != nil {
-			cb.afterRequest(false)
+			cb.afterRequest(generation, false)
 			panic(r)
 		}
 	}()
 
 	err = fn()
-	cb.afterRequest(err == nil)
+	cb.afterRequest(generation, err == nil)
 	return err
 }
 
@@ -129,14 +132,16 @@ func (cb *CircuitBreaker) Call(fn func() error) error {
 	return cb.Execute(fn)
 }
 
-// beforeRequest checks if the request can proceed with optimized locking
-func (cb *CircuitBreaker) beforeRequest() error {
+// beforeRequest checks if the request can proceed with optimized locking and
+// returns the generation (state period) the request was admitted in
+func (cb *CircuitBreaker) beforeRequest() (uint64, error) {
 	vhook.Yield("cb.before.enter")
 	now := time.Now()
 
 	// Fast path: read-only check for most common case (StateClosed)
 	cb.mutex.RLock()
 	state := cb.state
+	generation := cb.generation
 
 	// Common case: circuit is closed and healthy
 	if state == StateClosed {
@@ -154,7 +159,7 @@ func (cb *CircuitBreaker) beforeRequest() error {
 			}
 			cb.mutex.Unlock()
 		}
-		return nil
+		return generation, nil
 	}
 
 	// For Open state, check if we can transition to HalfOpen
@@ -175,13 +180,14 @@ func (cb *CircuitBreaker) beforeRequest() error {
 			// Admit (and count) under the same lock: another request may have
 			// moved the breaker to half-open, or back, in the meantime.
 			err := cb.admitLocked()
+			generation = cb.generation
 			cb.mutex.Unlock()
 			if notify != nil {
 				notify()
 			}
-			return err
+			return generation, err
 		}
-		return ErrCircuitBreakerOpen
+		return generation, ErrCircuitBreakerOpen
 	}
 
 	// HalfOpen state: check request limit
@@ -191,18 +197,19 @@ func (cb *CircuitBreaker) beforeRequest() error {
 		vhook.Yield("cb.before.half")
 
 		if atLimit {
-			return ErrTooManyRequests
+			return generation, ErrTooManyRequests
 		}
 		// Check the limit again and count the trial in one critical section so
 		// that concurrent requests cannot exceed maxRequests.
 		cb.mutex.Lock()
 		err := cb.admitLocked()
+		generation = cb.generation
 		cb.mutex.Unlock()
-		return err
+		return generation, err
 	}
 
 	cb.mutex.RUnlock()
-	return ErrCircuitBreakerOpen
+	return generation, ErrCircuitBreakerOpen
 }
 
 // admitLocked decides whether a request may proceed in the current state and,
@@ -223,9 +230,16 @@ func (cb *CircuitBreaker) admitLocked() error {
 }
 
 // afterRequest updates the circuit breaker state after a request
-func (cb *CircuitBreaker) afterRequest(success bool) {
+func (cb *CircuitBreaker) afterRequest(generation uint64, success bool) {
 	vhook.Yield("cb.after.enter")
 	cb.mutex.Lock()
+	if generation != cb.generation {
+		// The state changed while this request was running: its outcome says
+		// nothing about the current period (e.g. a slow request admitted while
+		// closed must not count as a successful half-open trial).
+		cb.mutex.Unlock()
+		return
+	}
 	notify := cb.recordResult(success)
 	cb.mutex.Unlock()
 
@@ -281,6 +295,7 @@ func (cb *CircuitBreaker) setState(state State) func() {
 
 	prev := cb.state
 	cb.state = state
+	cb.generation++
 
 	if cb.onStateChange == nil {
 		return nil
